@@ -257,7 +257,9 @@ def step (st : St) : List String → St × String
           (List.replicate (xs.length * ys.length) false)
         (st, s!"ok {showRatList vals} {showList showBool flags}")
       | _, .error .zeroDiv => (st, "err zerodiv")
-      | _, _ => (st, "err index")
+      | _, .error .attribute => (st, "err attribute")
+      | _, .error .index => (st, "err index")
+      | none, .ok _ => (st, "err index")
     | _, _, _, _, _, _, _ => (st, "bad-op")
   | _ => (st, "bad-op")
 
